@@ -619,10 +619,19 @@ func (m *Model) markerChain(w *World, step int, after *snapshot) *Finding {
 			}
 			continue
 		}
-		if k == 3 && l == m.root {
+		if k == 3 && l == m.root && m.c.Init.Kind == "fresh" {
+			// a fresh chain starts with CommitQC = Root = the genesis proposal (the last committed one)
+			continue
+		}
+		if k == 3 && l == m.root && step >= 0 {
+			// later: the root IS the last committed proposal
 			continue
 		}
 		detail := fmt.Sprintf("HighQC=%s, its ancestor number %d is %s, %s=%s [%s]", name(h), k, aname(c, h, k), names[k], name(l), renderState(w))
+		if step < 0 {
+			// no call has been made yet: the start state itself (restart on a ledger) is inconsistent
+			return &Finding{Sig: "qctree|markers-not-successive-ancestors|set-by-the-initialiser", Detail: detail, Step: step}
+		}
 		if _, in := after.tree[want]; want >= 0 && in {
 			return &Finding{Sig: "qctree|markers-not-successive-ancestors|marker-differs-from-the-ancestor-stored-in-the-tree", Detail: detail, Step: step}
 		}
